@@ -182,7 +182,7 @@ func edPrivatePEM(k int) []byte {
 func keyFileText(ours, other string, via int) (string, int) {
 	switch via {
 	case 1:
-		return "# a comment\n\n" + other + "\n# another\n" + ours + "\n", 1
+		return "# a comment\n\n" + other + "\n\n# another\n" + ours + "\n\n", 1
 	case 2:
 		return "# a comment\r\n\r\n" + other + "\r\n" + ours + "\r\n", 1
 	default:
@@ -202,7 +202,9 @@ func RecipientVia(k Key, via int) age.Recipient {
 		other := ref.Bech32Encode("age", ref.X25519Public(X25519Secret((k.K+1)%NX25519)))
 		text, idx := keyFileText(ours, other, via)
 		rs, err := age.ParseRecipients(strings.NewReader(text))
-		must(err)
+		if err != nil || len(rs) != 2 {
+			panic(fmt.Sprintf("age.ParseRecipients returned %d recipients and error %v for a file with 2 recipients: %q", len(rs), err, text))
+		}
 		return rs[idx]
 	case "e", "r":
 		var pk ssh.PublicKey
@@ -238,7 +240,9 @@ func IdentityVia(k Key, via int) age.Identity {
 		other := strings.ToUpper(ref.Bech32Encode("AGE-SECRET-KEY-", X25519Secret((k.K+1)%NX25519)))
 		text, idx := keyFileText(ours, other, via)
 		ids, err := age.ParseIdentities(strings.NewReader(text))
-		must(err)
+		if err != nil || len(ids) != 2 {
+			panic(fmt.Sprintf("age.ParseIdentities returned %d identities and error %v for a file with 2 keys", len(ids), err))
+		}
 		return ids[idx]
 	case "e":
 		i, err := agessh.ParseIdentity(edPrivatePEM(k.K))
@@ -262,7 +266,11 @@ type GreaseRecipient struct {
 	BodyLen int
 	Tag     int
 	ArgLen  int // >0: an extra argument of this many characters
+	Append  int // >0: Wrap appends this many bytes to the file-key slice it received
 }
+
+// AppendSink keeps the appended slice alive.
+var AppendSink []byte
 
 func (g *GreaseRecipient) Stanzas() []*age.Stanza {
 	var out []*age.Stanza
@@ -280,7 +288,16 @@ func (g *GreaseRecipient) Stanzas() []*age.Stanza {
 	return out
 }
 
-func (g *GreaseRecipient) Wrap(fileKey []byte) ([]*age.Stanza, error) { return g.Stanzas(), nil }
+func (g *GreaseRecipient) Wrap(fileKey []byte) ([]*age.Stanza, error) {
+	if g.Append > 0 {
+		ctx := make([]byte, g.Append)
+		for i := range ctx {
+			ctx[i] = 0xEE
+		}
+		AppendSink = append(fileKey, ctx...) // "message = file key || context": must not reach anything of the caller's
+	}
+	return g.Stanzas(), nil
+}
 
 // LoggingIdentity records Unwrap calls in order.
 type LoggingIdentity struct {
